@@ -73,6 +73,10 @@ class C02(PropBase):
                 codecs.append((len(steps) - 1, core.jdump(t), peer, mod))
                 continue
             step = {"op": "agree", "t": t, "v": copy.deepcopy(rng.choice(vals)), "peer": peer, "mod": mod}
+            if rng.random() < 0.6:
+                # the hint is spelled inline by the caller: a new annotation object for this call only,
+                # gone afterwards (its address is free for the next hint)
+                step["fresh_t"] = True
             mine = [c for c in codecs if c[1] == core.jdump(t) and c[2] == peer]
             if mine and rng.random() < 0.7:
                 c = rng.choice(mine)
